@@ -357,6 +357,12 @@ def asm_rule(ctx: Ctx, rid: str = "R19.asm") -> None:
     li = m.method(p, "_load_instructions", own=True)
     from ..toyparserspec import placement_rules
     placement_rules(ctx, r)
+    # which lines are code at all: the segment split (shared by both assemblers) against its reference formulation
+    from ..flowspec import compare
+    from .c05 import SEGMENT_REF
+    sg = m.method("Parser", "_segment", own=True)
+    compare(r, m, sg, SEGMENT_REF, "segments", keep=lambda k, t: not (k == "call" and t.endswith(".get('directive')")),
+            what="_segment splits the token list at the .data / .text directives in either order, keeping every line of the open segment")
     # label pass
     pl = m.method(p, "_process_labels")
     from ..pathsym import disj, iteration_paths, same_function
